@@ -51,15 +51,22 @@ let run = function
     let (codecs, _) = tables proto in
     let demo = demo = "1" in
     let bs = unhex h in
+    let omsg = String.length kind > 5 && String.sub kind 0 5 = "omsg:" in
     let (r, ws) = match kind with
       | "sys" -> decode_sysgame codecs true demo bs
       | "game" -> decode_sysgame codecs false demo bs
-      | _ -> decode_connless codecs demo bs in
+      | "conn" -> decode_connless codecs demo bs
+      | _ ->
+        (* Obj::decode_msg: no id, the codec is named by the case *)
+        (match find_codec codecs KObjMsg (parse_id (List.nth (split_on ':' kind) 2)) with
+         | None -> failwith "no such objmsg codec"
+         | Some c -> tag_codec c (decode_w c demo bs)) in
     (match r with
      | Ok (c, vs) ->
-       let enc = enc_txt (encode_msg c vs big_cap) in
+       let enc_fn = if omsg then encode c vs else encode_msg c vs in
+       let enc = enc_txt (enc_fn big_cap) in
        let sm = if small = "-" then "-" else
-           (match encode_msg c vs (nat_of_int (int_of_string small)) with
+           (match enc_fn (nat_of_int (int_of_string small)) with
             | Ok _ -> "fits" | other -> enc_txt other) in
        Printf.sprintf "ok %s %s %s" (warns ws) enc sm
      | Err e -> Printf.sprintf "err %s %s" (err_txt e) (warns ws)
